@@ -122,20 +122,29 @@ def certificate_cases(rng, n):
     return batch, failed, errors, bad, samples, dist
 
 
-def recovery_cases(rng, n):
+def recovery_cases(rng, n, ids=()):
     """noise-free linear data: Edmd(alpha=0), EdmdMeta, untruncated Dmdc (both mode types), Dmd (no input)
     return [A B]; a pipeline fit equals regressing on the pipeline's own lifted data."""
     bad = []
     evals = 0
+    kn = {}
     for cid in range(n):
         ns = int(rng.integers(1, 7)); nu = int(rng.integers(0, 4))
         A = rng.normal(size=(ns, ns)) * rng.choice([0.4, 0.9, 1.3]) / np.sqrt(ns)
         B = rng.normal(size=(ns, nu))
         n_eps = int(rng.integers(1, 4))
+        deficient = cid % 3 == 2 and ns >= 2
+        if deficient:
+            # [A B] of rank n_states - 1 (a redundant direction: singular A, B in the same range); the data matrix
+            # stays well conditioned through the initial conditions of several short episodes
+            AB0 = rng.normal(size=(ns, ns - 1)) @ rng.normal(size=(ns - 1, ns + nu))
+            AB0 *= rng.choice([0.5, 0.9, 1.2]) / max(1e-9, float(np.max(np.abs(np.linalg.eigvals(AB0[:, :ns])))))
+            A, B = AB0[:, :ns], AB0[:, ns:]
+            n_eps = int(rng.integers(ns + 1, ns + 4))
         rows = []
         for l in range(n_eps):
             x = rng.normal(size=ns)
-            for _ in range(ns + nu + int(rng.integers(3, 10))):
+            for _ in range((int(rng.integers(3, 6))) if deficient else ns + nu + int(rng.integers(3, 10))):
                 u = rng.normal(size=nu)
                 rows.append([float(l)] + list(x) + list(u))
                 x = A @ x + B @ u
@@ -177,6 +186,9 @@ def recovery_cases(rng, n):
             except Exception as e:  # noqa
                 err = float('inf'); info = dict(error=f'{type(e).__name__}: {e}')
             if not err <= 1e-6 * max(1.0, float(np.max(np.abs(AB)))):
+                if 'F16' in ids and known.F16(name, A):
+                    kn['F16'] = kn.get('F16', 0) + 1
+                    continue
                 bad.append(dict(what='regressor does not recover [A B] from noise-free data of a linear system',
                                 regressor=name, n_states=ns, n_inputs=nu, error=err, arrangement=arr, A=A.tolist(), B=B.tolist(),
                                 X=X.tolist(), **info))
@@ -191,26 +203,27 @@ def recovery_cases(rng, n):
                 np.max(np.abs(kp.regressor_.coef_ - bare.coef_)) > 1e-9 * max(1.0, float(np.max(np.abs(bare.coef_)))):
             bad.append(dict(what='pipeline fit differs from regressing on the pipeline\'s own lifted data',
                             chain=repr(chain), X=X.tolist()))
-    return evals, bad
+    return evals, bad, kn
 
 
 def run(res, tier):
     rng = np.random.default_rng(common.seed())
     proved = driver.proof_step(res, PID)
-    known.report_known(res, PID)
+    ids = known.report_known(res, PID)
     n_cert, n_rec = (45, 25) if tier == 'quick' else (450, 300)
     batch, failed, errors, bad, samples, dist = certificate_cases(rng, n_cert)
-    ev, bad2 = recovery_cases(rng, n_rec)
+    ev, bad2, kn = recovery_cases(rng, n_rec, ids)
     res.coverage.update(
         evaluations=len(batch.meta) + ev, distinct_nontrivial=len(batch.meta) + ev,
         rule=('Certificate: integer multi-episode data, tall / square / wide (fewer pairs than features), alpha in '
               '{0, 1/2, 1, 3}; each float of Edmd.coef_ is converted to its exact dyadic rational and Coq (vm_compute over Q) '
               'evaluates |U (Psi Psi^T + alpha I) - Theta_+ Psi^T| <= tol: the hypothesis of theorem C06_optimal on the '
               'implementation\'s output. Direct: cost against the closed-form and perturbed competitors; recovery of [A B] '
-              'from noise-free data of random stable/unstable systems (1..6 states, 0..3 inputs, 1..3 episodes) by Edmd, '
+              'from noise-free data of random stable/unstable systems (1..6 states, 0..3 inputs, 1..3 episodes; every third system '
+              'with [A B] of rank n_states - 1, i.e. singular A) by Edmd, '
               'EdmdMeta, Dmdc (projected and exact modes), Dmd; pipeline fit = bare fit on the lifted data.'),
         samples=samples, input_distribution=dist, model_vs_impl_disagreements=len(failed),
-        coq_case_errors=len(errors), recovery_fits=ev)
+        coq_case_errors=len(errors), recovery_fits=ev, known_finding_hits=kn)
     res.assumptions += ['LAPACK (lstsq, svd, eig) is an oracle; the certificate is checked on its output with tolerance 1e-8 (relative)',
                         'floating-point rounding is outside the theorem: statements are over an exact real field']
     _dp.conclude(res, PID, proved, batch, failed, errors, bad + bad2,
